@@ -238,6 +238,9 @@ class BuildDirector(SectionLineParser):
                 self._tag_nodes(molecule, "rw_options",
                                 self.rw_options[(molecule.mol_name, mol_idx)],
                                 molecule.mol_name)
+            # templates of build files that were read before stay in place
+            for graph_hash, coords in getattr(molecule, "templates", {}).items():
+                self.templates.setdefault(graph_hash, coords)
             molecule.templates = self.templates
 
         super().finalize(lineno=lineno)
